@@ -420,6 +420,8 @@ def method(ex, p, base, name, args, kwargs, node):
             h.items.insert(i.t, args[1])
             yield p, NONE
         elif name == 'index':
+            if len(args) != 1 or kwargs:
+                raise EngineError('list.index with start / stop')
             def rec(q, i):
                 items = q.heap[base.ref].items
                 if i == len(items):
